@@ -227,6 +227,39 @@ pub fn stroke_possibly_scaled(dt: &mut DrawTarget, path: &Path, style: &StrokeSt
     }
 }
 
+/// a stroke whose path lies outside the surface and whose width is stretched most in a direction that is not the
+/// image of an axis (see the workload of the same name)
+pub fn gen_reaching_in_case(rng: &mut Rng) -> Option<StrokeCase> {
+        let w = rng.int(16, 40) as i32;
+        let h = rng.int(16, 40) as i32;
+        let ang = rng.range(0., 6.28) as f32;
+        let t = match rng.below(3) {
+            0 => Transform::rotation(euclid::Angle::radians(ang)).then_scale(*rng.pick(&[4.0f32, 3., 6.]), 1.),
+            1 => Transform::rotation(euclid::Angle::radians(ang)).then_scale(1., *rng.pick(&[4.0f32, 3., 0.25])),
+            _ => Transform::new(1., rng.range(-3., 3.) as f32, rng.range(-3., 3.) as f32, 1., 0., 0.),
+        };
+        let inv = match t.inverse() {
+            Some(i) => i,
+            None => return None,
+        };
+        // a line (or an angle) just outside one side of the surface, given in device space
+        let d = rng.range(2., 40.) as f32;
+        let side = rng.below(4);
+        let dev: Vec<(f32, f32)> = match side {
+            0 => vec![(-d, -5.), (-d - rng.range(0., 6.) as f32, h as f32 / 2.), (-d, h as f32 + 5.)],
+            1 => vec![(w as f32 + d, -5.), (w as f32 + d, h as f32 + 5.)],
+            2 => vec![(-5., -d), (w as f32 / 2., -d - rng.range(0., 6.) as f32), (w as f32 + 5., -d)],
+            _ => vec![(-5., h as f32 + d), (w as f32 + 5., h as f32 + d)],
+        };
+        let mut pb = PathBuilder::new();
+        for (k, p) in dev.iter().enumerate() {
+            let u = inv.transform_point(Point::new(p.0, p.1));
+            if k == 0 { pb.move_to(u.x, u.y) } else { pb.line_to(u.x, u.y) }
+        }
+        let style = StrokeStyle { width: rng.range(4., 24.) as f32, cap: *rng.pick(&[LineCap::Butt, LineCap::Round]), join: *rng.pick(&[LineJoin::Round, LineJoin::Bevel]), miter_limit: 2., dash_array: vec![], dash_offset: 0. };
+        Some(StrokeCase { w, h, path: pb.finish(), style, t, aa: rng.chance(0.8) })
+}
+
 pub fn run_stroke_case(c: &StrokeCase, st: &mut Stats) -> (RegionResult, bool) {
     let mut dt = DrawTarget::new(c.w, c.h);
     stroke_possibly_scaled(&mut dt, &c.path, &c.style, &c.t, c.aa, st);
@@ -254,6 +287,9 @@ fn gen_polyline_path(rng: &mut Rng, w: i32, h: i32, curves: bool, min_seg: f64) 
     let mut ops = Vec::new();
     let multi = rng.chance(0.3);
     let nsub = 1 + rng.below(if multi { 3 } else { 1 });
+    // where the previous subpath stopped (as stored): the next one may start exactly there - two open
+    // subpaths that touch end to start have their own caps, not a join
+    let mut prev_end: Option<P> = None;
     for _ in 0..nsub {
         let n = rng.int(2, 5) as usize;
         let mut pts: Vec<P> = Vec::new();
@@ -261,6 +297,7 @@ fn gen_polyline_path(rng: &mut Rng, w: i32, h: i32, curves: bool, min_seg: f64) 
         while pts.len() < n && guard < 200 {
             guard += 1;
             let p = match rng.below(6) {
+                _ if pts.is_empty() && prev_end.is_some() && rng.chance(0.3) => prev_end.unwrap(),
                 0 => P::new(rng.int(0, w as i64) as f64, rng.int(0, h as i64) as f64),
                 _ => P::new(rng.range(-4., wf + 4.), rng.range(-4., hf + 4.)),
             };
@@ -316,7 +353,8 @@ fn gen_polyline_path(rng: &mut Rng, w: i32, h: i32, curves: bool, min_seg: f64) 
                 if rng.chance(0.5) {
                     ops.push(PathOp::QuadTo(c, p));
                 } else {
-                    let c2 = Point::new(rng.range(-2., wf + 2.) as f32, rng.range(-2., hf + 2.) as f32);
+                    // (both control points in one place now and then: still a cubic, not the quadratic with that control point)
+                    let c2 = if rng.chance(0.15) { c } else { Point::new(rng.range(-2., wf + 2.) as f32, rng.range(-2., hf + 2.) as f32) };
                     ops.push(PathOp::CubicTo(c, c2, p));
                 }
             } else {
@@ -324,6 +362,7 @@ fn gen_polyline_path(rng: &mut Rng, w: i32, h: i32, curves: bool, min_seg: f64) 
             }
             prev = p;
         }
+        prev_end = Some(P::new(prev.x as f64, prev.y as f64));
         if rng.chance(0.4) {
             // now and then the subpath returns to its start explicitly before closing
             if rng.chance(0.25) {
@@ -337,7 +376,7 @@ fn gen_polyline_path(rng: &mut Rng, w: i32, h: i32, curves: bool, min_seg: f64) 
 }
 
 /// curves whose flattening would make cusps or near-cusps are not assertable
-fn well_conditioned(path: &Path, t: &Transform) -> bool {
+pub fn well_conditioned(path: &Path, t: &Transform) -> bool {
     let subs = stroke_polyline(path, t);
     for s in &subs {
         let mut pts: Vec<P> = Vec::new();
@@ -388,7 +427,7 @@ pub fn gen_transform_for_stroke(rng: &mut Rng, w: i32, h: i32) -> Transform {
     }
 }
 
-fn case_desc(c: &StrokeCase) -> J {
+pub fn case_desc(c: &StrokeCase) -> J {
     let mut d = J::obj();
     d.set("surface", J::s(&format!("{}x{}", c.w, c.h)));
     d.set("path", J::s(&path_str(&c.path)));
@@ -468,8 +507,8 @@ pub fn run(ctx: &Ctx) -> Outcome {
     // winding numbers far beyond what a narrow counter holds
     run_cases(ctx, &mut out, SubSpec { name: "many_passes_over_the_same_spot", cases: ctx.n(24, 600), exhaustive: false, max_secs: 60. }, |i, want, st| {
         let mut rng = ctx.rng("many_passes_over_the_same_spot", i);
-        let w = rng.int(12, 30) as i32;
-        let h = rng.int(8, 20) as i32;
+        let w = rng.int(24, 40) as i32;
+        let h = rng.int(30, 44) as i32;
         let passes = *rng.pick(&[100usize, 127, 128, 129, 130, 200, 255, 256, 257, 300, 512, 513]);
         let (x0, x1, y) = (3.0f32, w as f32 - 3., h as f32 / 2.);
         let mut pb = PathBuilder::new();
@@ -477,7 +516,7 @@ pub fn run(ctx: &Ctx) -> Outcome {
         for k in 0..passes {
             pb.line_to(if k % 2 == 0 { x1 } else { x0 }, y);
         }
-        let style = StrokeStyle { width: rng.range(2., 6.) as f32, cap: *rng.pick(&[LineCap::Butt, LineCap::Square]), join: *rng.pick(&[LineJoin::Bevel, LineJoin::Miter, LineJoin::Round]), miter_limit: 2., dash_array: vec![], dash_offset: 0. };
+        let style = StrokeStyle { width: rng.range(5., 9.) as f32, cap: *rng.pick(&[LineCap::Butt, LineCap::Square]), join: *rng.pick(&[LineJoin::Bevel, LineJoin::Miter, LineJoin::Round]), miter_limit: 2., dash_array: vec![], dash_offset: 0. };
         let c = StrokeCase { w, h, path: pb.finish(), style, t: Transform::identity(), aa: rng.chance(0.7) };
         let mut co = CaseOut::default();
         co.hash = crate::prng::hash_str(&format!("{}{:?}{}{}", passes, c.style, w, h));
@@ -489,18 +528,87 @@ pub fn run(ctx: &Ctx) -> Outcome {
         let mut dt = DrawTarget::new(w, h);
         dt.stroke(&c.path, &Source::Solid(WHITE), &c.style, &opts(BlendMode::SrcOver, 1., c.aa));
         let subs = stroke_polyline(&single.path, &single.t);
-        let reg = stroke_region(&subs, c.style.width as f64, cap_of(c.style.cap), join_of(c.style.join), c.style.miter_limit as f64, &T64::from(&c.t));
-        // (reversal joins at both ends stay within half a width of the end points: margin of half a width + 1)
-        let res = check_against_region(dt.get_data(), w, h, &reg, c.style.width as f64 / 2. + 1.0);
+        // must be painted: the body of the one segment all passes share (judged with butt ends); may be painted: that
+        // body with square ends, grown by half a width (a round join where the passes turn around is a half disc)
+        let hw = c.style.width as f64 / 2.;
+        let body = stroke_region(&subs, c.style.width as f64, cap_of(LineCap::Butt), join_of(c.style.join), c.style.miter_limit as f64, &T64::from(&c.t));
+        let hull = stroke_region(&subs, c.style.width as f64, cap_of(LineCap::Square), join_of(c.style.join), c.style.miter_limit as f64, &T64::from(&c.t));
+        let res_in = check_against_region(dt.get_data(), w, h, &body, 1.0);
+        let res_out = check_against_region(dt.get_data(), w, h, &hull, hw + 1.0);
         st.add("passes", passes as u64);
-        co.nontrivial = res.inside > 0 && res.outside > 0;
-        if let Some(v) = res.violation {
+        st.add("many_passes_px_inside_asserted", res_in.inside);
+        st.add("many_passes_px_outside_asserted", res_out.outside);
+        co.nontrivial = res_in.inside > 0 && res_out.outside > 0;
+        let v = res_in.violation.filter(|v| v.contains("lies inside")).or(res_out.violation.filter(|v| v.contains("lies outside")));
+        if let Some(v) = v {
             co.viol("C04", format!("{} passes over the same segment: {}", passes, v));
         }
         if want || !co.violations.is_empty() {
             let mut d = case_desc(&single);
             d.set("passes_over_this_segment", J::Int(passes as i64));
             co.desc = Some(d);
+        }
+        co
+    });
+
+    // very wide strokes of gentle curves (hundreds of units wide): only one edge of the stroke crosses the surface;
+    // it is the offset curve of the flattened path at the stroker's tolerance of a tenth of a pixel, whatever the width
+    run_cases(ctx, &mut out, SubSpec { name: "very_wide_strokes_of_curves", cases: ctx.n(300, 6_000), exhaustive: false, max_secs: 60. }, |i, want, st| {
+        let mut rng = ctx.rng("very_wide_strokes_of_curves", i);
+        let w = rng.int(30, 60) as i32;
+        let h = rng.int(30, 60) as i32;
+        let width = rng.range(300., 1500.) as f32;
+        let hw = width as f64 / 2.;
+        // a curve well above the surface whose lower stroke edge dips into it
+        let y0 = -(hw - rng.range(5., h as f64 - 5.));
+        let sag = rng.range(20., 120.);
+        let mut pb = PathBuilder::new();
+        pb.move_to(-200., y0 as f32);
+        if rng.chance(0.5) {
+            pb.quad_to(w as f32 / 2., (y0 + sag) as f32, w as f32 + 200., y0 as f32);
+        } else {
+            pb.cubic_to(w as f32 * 0.2, (y0 + sag) as f32, w as f32 * 0.8, (y0 + sag * rng.range(0.3, 1.0)) as f32, w as f32 + 200., y0 as f32);
+        }
+        let style = StrokeStyle { width, cap: LineCap::Butt, join: *rng.pick(&[LineJoin::Round, LineJoin::Bevel, LineJoin::Miter]), miter_limit: 4., dash_array: vec![], dash_offset: 0. };
+        let c = StrokeCase { w, h, path: pb.finish(), style, t: Transform::identity(), aa: true };
+        let mut co = CaseOut::default();
+        co.hash = crate::prng::hash_str(&format!("{:?}{:?}", c.path, c.style));
+        let (res, skipped) = run_stroke_case(&c, st);
+        st.add("very_wide_strokes", 1);
+        co.nontrivial = !skipped && res.inside > 0 && res.outside > 0;
+        if let Some(v) = res.violation {
+            co.viol("C04", format!("stroke {} wide: {}", width, v));
+        }
+        if want || !co.violations.is_empty() {
+            co.desc = Some(case_desc(&c));
+        }
+        co
+    });
+
+    // a stroke whose path lies wholly outside the surface but which reaches in because the transform stretches its
+    // width most in a direction that is not the image of an axis (a rotation followed by an uneven scale, a shear)
+    run_cases(ctx, &mut out, SubSpec { name: "strokes_reaching_in_under_stretching_transforms", cases: ctx.n(3_000, 60_000), exhaustive: false, max_secs: 60. }, |i, want, st| {
+        let mut rng = ctx.rng("strokes_reaching_in_under_stretching_transforms", i);
+        let c = match gen_reaching_in_case(&mut rng) {
+            Some(c) => c,
+            None => return CaseOut::default(),
+        };
+        let mut co = CaseOut::default();
+        co.hash = crate::prng::hash_str(&format!("{:?}{:?}{:?}", c.path, c.style, c.t));
+        if !well_conditioned(&c.path, &c.t) {
+            return co;
+        }
+        let (res, skipped) = run_stroke_case(&c, st);
+        st.add("strokes_from_outside", 1);
+        if res.inside > 0 {
+            st.add("strokes_from_outside_that_reach_in", 1);
+        }
+        co.nontrivial = !skipped && res.inside > 0 && res.outside > 0;
+        if let Some(v) = res.violation {
+            co.viol("C04", v);
+        }
+        if want || !co.violations.is_empty() {
+            co.desc = Some(case_desc(&c));
         }
         co
     });
